@@ -1,8 +1,9 @@
 """C04 - parsing is total: any input yields an AST or an error, never a crash or hang."""
 import vp
+from checks import grammar_common as g
 
 LEVEL = "model_checking"
-SPECDIRS = ("c04",)
+SPECDIRS = g.SPECDIRS + ("c04",)
 
 
 def gen(ctx, module, name, consts, workers=4, invariants=""):
@@ -47,6 +48,12 @@ def run(ctx):
     # (c) mutations
     cf, r = gen(ctx, "Gen_c04w", "mut", {"N": 1, "Part": '"mut"', "Sizes": "{64}"})
     parts.append(("mut", cf))
+    cf, r = gen(ctx, "Gen_c04w", "mutws", {"N": 1, "Part": '"mutws"', "Sizes": "{64}"})
+    parts.append(("mutws", cf))
+    # (c') every statement of the Grammar corpus (25 kinds x all clause options) and the awkward-name statements: accepted
+    # statements exercise the validation the parser itself performs after parsing (continuous queries, durations, limits)
+    for name, cf in g.gen_statements(ctx, "selectq")[:1] + [("names", g.gen_names(ctx))]:
+        parts.append(("grammar_" + name, cf))
     # (d) growth
     sizes = "{64, 128, 256, 512}" if q else "{64, 128, 256, 512, 1024, 2048, 4096, 8192, 50000}"
     cf, r = gen(ctx, "Gen_c04w", "grow", {"N": 1, "Part": '"grow"', "Sizes": sizes})
